@@ -321,11 +321,20 @@ func C06Child(args []string) int {
 		for i := 0; i < n; i++ {
 			en := names[r.IntN(len(names))]
 			var s string
-			switch r.IntN(3) {
+			switch r.IntN(4) {
 			case 0:
 				s = gen.One(en, r)
 			case 1:
 				s = gen.RangeOne(en, r)
+			case 2:
+				// token-level damage; used as is half of the time (no byte-level mutation on top)
+				s = gen.HostileRange(en, r)
+				st.callAll(s, true)
+				st.counters["hostile_inputs"]++
+				st.counters["hostile_token_level_ranges"]++
+				if r.IntN(2) == 0 {
+					continue
+				}
 			default:
 				s = "vers:" + Schemes[r.IntN(len(Schemes))] + "/" + gen.Pick(r, ">=", "<", "=", "!=", "<=", ">") + gen.One(en, r) + gen.Pick(r, "", "|<"+gen.One(en, r), "|!="+gen.One(en, r))
 			}
